@@ -8,6 +8,7 @@
 -/
 import Yae.Gen.LexPatterns
 import Yae.Model.Lexer
+import Yae.Spec.Regex
 namespace Yae.GenTie
 
 /-- the pattern each recogniser of the model stands for (token kind constant, Go pattern text) -/
@@ -31,6 +32,17 @@ theorem lex_rules_order :
     ((newLexicon []).drop 12).map (fun r => match r.m with | .regex p => some p | _ => none) =
       modelLexPatterns.map (fun x => some x.1) := by decide
 
+/-- **the translator-style tie**: the pattern TEXT found in the Go source now is, character for
+character, the printed form of the regular expression `reOf p` whose reference semantics the
+recogniser `p.run` is proved equal to (`Yae.Pat.run_eq_matchLen`, `Yae.C09.literal_forms`) -/
+theorem lex_regex_tie :
+    Gen.lexPatterns.map (·.2) = modelLexPatterns.map (fun x => (reOf x.1).show) := by decide
+
+/-- … likewise `keywordPostfix` and `idReg` (anchors written out) -/
+theorem lex_aux_regex_tie :
+    Gen.keywordPostfixPattern = "^" ++ reKeywordPostfix.show ∧
+    Gen.identOpPattern = "^" ++ reIdent.show ++ "$" := by decide
+
 /-- `keywordPostfix`, `idReg`, and the operator alphabet behind `oper.HasPrefix` -/
 theorem lex_aux_tie :
     Gen.keywordPostfixPattern = "^[a-zA-Z\\d\\p{L}_]+" ∧
@@ -40,5 +52,7 @@ theorem lex_aux_tie :
 #print axioms lex_patterns_tie
 #print axioms lex_rules_order
 #print axioms lex_aux_tie
+#print axioms lex_regex_tie
+#print axioms lex_aux_regex_tie
 
 end Yae.GenTie
